@@ -78,17 +78,21 @@ def handle : Handler
     | none => pure { out := ["err"], tag := "cookieparse:err" }
     | some c => pure { out := "ok" :: cookieTokens c, tag := "cookieparse:ok:" ++ boolTok (c.maxAge > 0) ++ ssTok c.sameSite ++ boolTok c.httpOnly ++ boolTok c.secure ++ boolTok (!c.domain.isEmpty) }
   | ["cookiert", key, value, maxAge, domain, path, ho, se, ss, pa, ex], impl => do
-    let key ← hx key; let value ← hx value; let domain ← hx domain; let path ← hx path
+    let key ← hx key; let value ← hx value; let domain ← hx domain
+    let pathSet := path != "N"          -- "N": `SetPath` is never called
+    let path ← if pathSet then hx path else some []
     let sameSite := match ss with | "1" => SameSite.default | "2" => .lax | "3" => .strict | "4" => .none | _ => .disabled
     let secure := se == "1" || sameSite == .none || pa == "1"
-    let path := normalizePath path      -- `SetPath` normalises
+    let path := if pathSet then normalizePath path else []     -- `SetPath` normalises
     let c : Cookie := { key, value, maxAge := (if maxAge.toInt! > 0 then maxAge.toNat! else 0), domain, path, httpOnly := ho == "1",
                         secure, sameSite, partitioned := pa == "1" }
     -- attribute values the serialiser writes verbatim must not contain the separators, and the scanner trims
     -- blanks and one pair of quotes: outside that the round trip is not claimed
     let plain (b : Bytes) := !b.contains 59 && b == decodeCookieArg b true
     let wf := !key.contains 61 && !key.contains 59 && key == decodeCookieArg key false && plain value && plain domain && plain path &&
-              !(key.isEmpty && value.contains 61)
+              !(key.isEmpty && value.contains 61) &&
+              -- the entirely empty cookie serialises to the empty string, which is no cookie (`cookie_roundtrip_fails_at`)
+              !(appendCookie c).isEmpty
     let withExpire := ex != "0" && c.maxAge == 0
     let ok := match impl with
       | _s :: "ok" :: t => t.take 9 == cookieTokens c && (t.drop 9).head? == some "1"
